@@ -21,4 +21,4 @@ def suites(tier):
         cfgs = [dict(nmin=0, nmax=4, maxsize=3, steps=4, second=1, steps2=2), dict(nmin=5, nmax=6, maxsize=3, steps=2, second=1, steps2=1)]
     for cfg in cfgs:
         jobs.append(dict(id=jid("hist", cfg), func="zzH_C18_history", cfg=cfg))
-    return [dict(SRC, name="src", jobs=jobs)]
+    return [src_suite("src", jobs)]
